@@ -158,6 +158,7 @@ def nontrivial_parse(case, impl, tag):
 
 
 NONTRIVIAL["parse"] = nontrivial_parse
+NONTRIVIAL["fmt"] = lambda c, a, t: a.startswith("ok ") and len(a.split(" ")[1]) > 1
 
 
 def _text_of_parse_case(case):
@@ -197,4 +198,38 @@ def known_humantime_panic(item, k):
     return item.get("impl") == "panic" and item.get("model") == "panic"
 
 
-KNOWN_PREDICATES = {"model_predicts_humantime_overflow_panic": known_humantime_panic}
+def _fmt_case_text(item):
+    return bytes.fromhex(item["case"].split(" ")[1][1:]).decode("utf-8", "replace")
+
+
+def rust_lines(text):
+    """str::lines()"""
+    parts = text.split("\n")
+    last = parts.pop()
+    out = [p[:-1] if p.endswith("\r") else p for p in parts]
+    if last != "":
+        out.append(last)
+    return out
+
+
+def known_stray_cr(item, k):
+    # some line still ends in a carriage return after `str::lines()` (lone CR, CR CR LF, or an
+    # unterminated final line ending in CR): writing it back followed by LF turns it into CRLF
+    return item["case"].startswith("fmt ") and any(l.endswith("\r") for l in rust_lines(_fmt_case_text(item)))
+
+
+def known_empty_sql_at_eof(item, k):
+    # the last record has an empty SQL / command text: after trimming the trailing newlines the
+    # formatted file ends with the bare header
+    if not item["case"].startswith("fmt "):
+        return False
+    a = item["impl"].split(" ")
+    if len(a) < 4 or a[0] != "ok" or a[2] != "err" or a[3] != "unexpectedEOF":
+        return False
+    fmt = bytes.fromhex(a[1][1:]).decode("utf-8", "replace")
+    last = fmt.rstrip("\n").split("\n")[-1].split(" ")[0]
+    return last in ("statement", "query", "system")
+
+
+KNOWN_PREDICATES = {"stray_carriage_return": known_stray_cr, "empty_sql_at_eof": known_empty_sql_at_eof,
+                    "model_predicts_humantime_overflow_panic": known_humantime_panic}
